@@ -57,8 +57,10 @@ def parseEnt (s : String) : Option Ent :=
   | ["l", d] => do some (.lua (← d.toInt?))
   | _ => none
 
+/-- `g:` entries (rump: keys that vanished between SCAN and DUMP) are not part of the comparison — whether they are copied
+    empty or skipped is C16's; the harness leaves their names out of the arrivals as well -/
 def parseEnts (s : String) : Option (List Ent) :=
-  if s == "_" then some [] else (s.splitOn ",").mapM parseEnt
+  if s == "_" then some [] else ((s.splitOn ",").filter (fun t => !t.startsWith "g:")).mapM parseEnt
 
 /-- an element of a command stream: `select n`; a single-key command (a row (1,1,1) of the key table)
     `cmd key v`; a command without a row in the key table `cmd arg` -/
